@@ -16,7 +16,7 @@ from .. import core, gen, obs, ser
 from .c11 import strict_eq
 
 NEVER = "__never__"
-EXTRA = ["é x", "日本語", "007", "it's", 'q"d', 2 ** 63 - 1, -5, 1e308, -1.5, " lead", "a #b", "", "x" * 30, "go \U0001F680"]
+EXTRA = [0.75, -0.25, 0.5, "é x", "日本語", "007", "it's", 'q"d', 2 ** 63 - 1, -5, 1e308, -1.5, " lead", "a #b", "", "x" * 30, "go \U0001F680"]
 # strings that the YAML block emitter writes as literal / folded block scalars (multi-line, trailing newline, number- and keyword-looking single lines)
 BLOCKY = ["line one\nline two\n", "20240117", "false", "a\nb", "x\n", "multi\n\nline", "null", "1.5", "~", "k: v\n- x", "# not a comment\n"]
 SCALARS = gen.SCALARS + EXTRA + BLOCKY
